@@ -197,7 +197,9 @@ def _is_json(b):
 # TLC
 # ------------------------------------------------------------------------------------------
 def _tlc_cmd(spec, cfg, workers, metadir, heap, extra):
-    return ["java", "-Xmx" + heap, "-XX:+UseParallelGC", "-cp", TLA_CP, "tlc2.TLC", "-workers", str(workers),
+    # -Xss: recursive operators (life-event folds, limb arithmetic) over long sequences need a deep Java stack;
+    # without it a long random history can end in a (schedule-dependent) StackOverflowError = model failure
+    return ["java", "-Xmx" + heap, "-Xss256m", "-XX:+UseParallelGC", "-cp", TLA_CP, "tlc2.TLC", "-workers", str(workers),
             "-metadir", metadir, "-noGenerateSpecTE", "-config", cfg] + list(extra) + [spec]
 
 
